@@ -30,6 +30,10 @@ type CrashOp struct {
 	V    int    `json:"v,omitempty"`
 	// CommitErr: the commit of this mutation is refused (disk error)
 	CommitErr bool `json:"commit_err,omitempty"`
+	// ReadFirst: the write transaction reads the value before it mutates;
+	// Back: the same transaction then writes the value it had at its start
+	ReadFirst bool `json:"read_first,omitempty"`
+	Back      bool `json:"back,omitempty"`
 }
 
 // CrashCase is a case of the crash scenario.
@@ -88,6 +92,10 @@ func (CrashScenario) GenCase(r *rand.Rand, prop string) interface{} {
 		}
 		if k := op.Kind; (k == "create" || k == "update" || k == "delete") && chance(r, 8) {
 			op.CommitErr = true
+		}
+		if k := op.Kind; k == "update" || k == "delete" {
+			op.ReadFirst = chance(r, 40)
+			op.Back = chance(r, 25)
 		}
 		c.Ops = append(c.Ops, op)
 	}
@@ -303,40 +311,56 @@ func (CrashScenario) Execute(sim *sched.Sim, ci interface{}, prop string, race b
 			sim.Yield("crash.op", strconv.Itoa(i))
 			switch op.Kind {
 			case "create", "update", "delete":
-				old := cr.acked[op.ID]
 				var nw *idxRec
 				if op.Kind != "delete" {
 					nw = &idxRec{K: op.K, N: op.N, V: op.V}
 				}
-				cr.fl = &flight{kind: op.Kind, id: op.ID, old: old, new: nw}
+				first := cr.acked[op.ID]
 				wt := cr.st.Write(op.ID)
-				var err error
-				failCommit = op.CommitErr
-				switch op.Kind {
-				case "create":
-					err = wt.Create(*nw)
-				case "update":
-					err = wt.Update(*nw)
-				case "delete":
-					err = wt.Delete()
+				if op.ReadFirst {
+					wt.Value()
 				}
-				failCommit = false
-				wt.Close()
-				if commitFired {
-					commitFired = false
-					commitErrs++
-					h.Evals++
+				// one mutation of the open write transaction: in flight,
+				// then acknowledged (or not)
+				step := func(kind string, nw *idxRec, fail bool) {
+					cr.fl = &flight{kind: kind, id: op.ID, old: cr.acked[op.ID], new: nw}
+					var err error
+					failCommit = fail
+					switch kind {
+					case "create":
+						err = wt.Create(*nw)
+					case "update":
+						err = wt.Update(*nw)
+					case "delete":
+						err = wt.Delete()
+					}
+					failCommit = false
+					if commitFired {
+						commitFired = false
+						commitErrs++
+						h.Evals++
+						if err == nil {
+							h.Violate("C12", "failed-commit-acknowledged", kind, fmt.Sprintf("%s of id %q returned success although its commit was refused", kind, op.ID))
+						}
+					}
 					if err == nil {
-						h.Violate("C12", "failed-commit-acknowledged", op.Kind, fmt.Sprintf("%s of id %q returned success although its commit was refused", op.Kind, op.ID))
+						if nw == nil {
+							delete(cr.acked, op.ID)
+						} else {
+							cr.acked[op.ID] = nw
+						}
 					}
+					cr.fl = nil
+					_, cr.safeOff = vlogWriteOffset(cr.dir)
 				}
-				if err == nil {
-					if nw == nil {
-						delete(cr.acked, op.ID)
-					} else {
-						cr.acked[op.ID] = nw
-					}
+				step(op.Kind, nw, op.CommitErr)
+				if op.Back && first != nil {
+					// the same transaction puts the first value back
+					sim.Probe("crash.back")
+					b := *first
+					step(either(cr.acked[op.ID] == nil, "create", "update"), &b, false)
 				}
+				wt.Close()
 				cr.fl = nil
 				_, cr.safeOff = vlogWriteOffset(cr.dir)
 			case "init":
@@ -655,3 +679,10 @@ func (cr *crashRun) checkLive(where string, indexes bool) {
 var _ = bytes.Equal
 
 func init() { register(CrashScenario{}) }
+
+func either[T any](cond bool, a, b T) T {
+	if cond {
+		return a
+	}
+	return b
+}
